@@ -21,21 +21,25 @@ structure Frame (w w' : World) : Prop where
   progress : w'.env.progress = w.env.progress
   installDt : w'.env.installDt = w.env.installDt
   rebootNeeded : w'.env.rebootNeeded = w.env.rebootNeeded
+  failures : w'.ctx.st.failures = w.ctx.st.failures
 
-theorem Frame.refl (w : World) : Frame w w := ⟨rfl, rfl, rfl, rfl, rfl, rfl, rfl, rfl, rfl, rfl⟩
+theorem Frame.refl (w : World) : Frame w w := ⟨rfl, rfl, rfl, rfl, rfl, rfl, rfl, rfl, rfl, rfl, rfl⟩
 
 theorem Frame.trans {w1 w2 w3 : World} (h1 : Frame w1 w2) (h2 : Frame w2 w3) : Frame w1 w3 :=
   ⟨h2.cfg.trans h1.cfg, h2.cup.trans h1.cup, h2.sysApp.trans h1.sysApp, h2.apps.trans h1.apps,
    h2.plan.trans h1.plan, h2.canStart.trans h1.canStart, h2.results.trans h1.results,
-   h2.progress.trans h1.progress, h2.installDt.trans h1.installDt, h2.rebootNeeded.trans h1.rebootNeeded⟩
+   h2.progress.trans h1.progress, h2.installDt.trans h1.installDt, h2.rebootNeeded.trans h1.rebootNeeded,
+   h2.failures.trans h1.failures⟩
 
-theorem frame_emit (a : Action) (w : World) : Frame w (emit a w) := ⟨rfl, rfl, rfl, rfl, rfl, rfl, rfl, rfl, rfl, rfl⟩
+theorem emit_env (a : Action) (w : World) : (emit a w).env = w.env := rfl
+
+theorem frame_emit (a : Action) (w : World) : Frame w (emit a w) := ⟨rfl, rfl, rfl, rfl, rfl, rfl, rfl, rfl, rfl, rfl, rfl⟩
 theorem frame_yield (e : Event) (w : World) : Frame w (yieldEv e w) := frame_emit _ _
 theorem frame_metric (m : Metric) (w : World) : Frame w (metric m w) := frame_emit _ _
-theorem frame_tick (dt : Clock) (w : World) : Frame w (tick dt w) := ⟨rfl, rfl, rfl, rfl, rfl, rfl, rfl, rfl, rfl, rfl⟩
+theorem frame_tick (dt : Clock) (w : World) : Frame w (tick dt w) := ⟨rfl, rfl, rfl, rfl, rfl, rfl, rfl, rfl, rfl, rfl, rfl⟩
 
 theorem frame_popFail (w : World) : Frame w (popFail w).2 := by
-  unfold popFail; split <;> exact ⟨rfl, rfl, rfl, rfl, rfl, rfl, rfl, rfl, rfl, rfl⟩
+  unfold popFail; split <;> exact ⟨rfl, rfl, rfl, rfl, rfl, rfl, rfl, rfl, rfl, rfl, rfl⟩
 
 theorem frame_storeOp (op : StoreOp) (w : World) : Frame w (storeOp op w).2 := by
   unfold storeOp
@@ -43,7 +47,7 @@ theorem frame_storeOp (op : StoreOp) (w : World) : Frame w (storeOp op w).2 := b
   split
   · exact (frame_popFail w).trans (frame_emit _ _)
   · refine (frame_popFail w).trans ?_
-    exact ⟨rfl, rfl, rfl, rfl, rfl, rfl, rfl, rfl, rfl, rfl⟩
+    exact ⟨rfl, rfl, rfl, rfl, rfl, rfl, rfl, rfl, rfl, rfl, rfl⟩
 
 theorem frame_storeOp_ (op : StoreOp) (w : World) : Frame w (storeOp_ op w) := frame_storeOp op w
 
@@ -68,20 +72,20 @@ theorem frame_persistData (w : World) : Frame w (persistData w) := by
 theorem frame_applyPoll (poll : Option Nat) (w : World) : Frame w (applyPoll poll w) := by
   unfold applyPoll
   split
-  · refine Frame.trans (w2 := yieldEv (.protocol { w.ctx.st with poll := poll }) { w with ctx := { w.ctx with st := { w.ctx.st with poll := poll } } }) ⟨rfl, rfl, rfl, rfl, rfl, rfl, rfl, rfl, rfl, rfl⟩ ?_
+  · refine Frame.trans (w2 := yieldEv (.protocol { w.ctx.st with poll := poll }) { w with ctx := { w.ctx with st := { w.ctx.st with poll := poll } } }) ⟨rfl, rfl, rfl, rfl, rfl, rfl, rfl, rfl, rfl, rfl, rfl⟩ ?_
     exact (frame_persistCtx _).trans (frame_storeOp_ _ _)
   · exact Frame.refl _
 
 theorem frame_popHttp (k : ReqKind) (w : World) : Frame w (popHttp k w).2 := by
   unfold popHttp
-  cases k <;> simp only <;> split <;> exact ⟨rfl, rfl, rfl, rfl, rfl, rfl, rfl, rfl, rfl, rfl⟩
+  cases k <;> simp only <;> split <;> exact ⟨rfl, rfl, rfl, rfl, rfl, rfl, rfl, rfl, rfl, rfl, rfl⟩
 
 theorem frame_sendRequest (k : ReqKind) (b : Request.Builder) (w : World) : Frame w (sendRequest k b w).2 := by
   unfold sendRequest
   simp only
   have h0 : Frame w (if w.cup.isSome = true then { w with nNonce := w.nNonce + 1 } else w) := by
     split
-    · exact ⟨rfl, rfl, rfl, rfl, rfl, rfl, rfl, rfl, rfl, rfl⟩
+    · exact ⟨rfl, rfl, rfl, rfl, rfl, rfl, rfl, rfl, rfl, rfl, rfl⟩
     · exact Frame.refl _
   exact (h0.trans (frame_popHttp k _)).trans (frame_emit _ _)
 
@@ -104,7 +108,7 @@ theorem frame_omahaRequest (k : ReqKind) (b : Request.Builder) (w : World) : Fra
   · exact (frame_sendRequest k b w).trans (frame_handleOutcome _ _)
 
 theorem frame_withRequestId (b : Request.Builder) (w : World) : Frame w (withRequestId b w).2 :=
-  ⟨rfl, rfl, rfl, rfl, rfl, rfl, rfl, rfl, rfl, rfl⟩
+  ⟨rfl, rfl, rfl, rfl, rfl, rfl, rfl, rfl, rfl, rfl, rfl⟩
 
 theorem frame_reportEvent (params : RequestParams) (ev : Omaha.Event) (apps : List App) (session : Nat)
     (nv : List (Bytes × Option Bytes)) (ns : Option Nat) (w : World) :
@@ -132,13 +136,13 @@ theorem frame_reportResults (params : RequestParams) (evs : List (App × Omaha.E
 theorem frame_popJitter (w : World) : Frame w (popJitter w).2.2 := by
   unfold popJitter
   rcases hj : w.env.jitter with _ | ⟨j, js⟩ <;> rcases hb : w.env.backoffDt with _ | ⟨b, bs⟩ <;>
-    simp only [hb] <;> exact ⟨rfl, rfl, rfl, rfl, rfl, rfl, rfl, rfl, rfl, rfl⟩
+    simp only [hb] <;> exact ⟨rfl, rfl, rfl, rfl, rfl, rfl, rfl, rfl, rfl, rfl, rfl⟩
 
 theorem frame_backoff (attempt : Nat) (w : World) : Frame w (backoff attempt w) := by
   unfold backoff
   simp only
   refine (frame_popJitter w).trans ?_
-  exact ⟨rfl, rfl, rfl, rfl, rfl, rfl, rfl, rfl, rfl, rfl⟩
+  exact ⟨rfl, rfl, rfl, rfl, rfl, rfl, rfl, rfl, rfl, rfl, rfl⟩
 
 theorem frame_attemptLoop (fuel attempt : Nat) (b : Request.Builder) (w : World) :
     Frame w (attemptLoop fuel attempt b w).2.2 := by
@@ -166,7 +170,7 @@ theorem frame_reportCheckInterval (src : InstallSource) (w : World) : Frame w (r
   unfold reportCheckInterval
   simp only
   have fr : ∀ w1 : World, Frame w w1 → Frame w { w1 with ctx := { w1.ctx with sched := { w1.ctx.sched with lastCheck := some (.complex ⟨w.clock.wall, w.clock.mono⟩) } } } :=
-    fun w1 h => h.trans ⟨rfl, rfl, rfl, rfl, rfl, rfl, rfl, rfl, rfl, rfl⟩
+    fun w1 h => h.trans ⟨rfl, rfl, rfl, rfl, rfl, rfl, rfl, rfl, rfl, rfl, rfl⟩
   apply fr
   split
   · split
@@ -310,7 +314,7 @@ theorem frame_performUpdateCheck (params : RequestParams) (apps : List App) (w :
   generalize yieldEv (.state (.checking params.source)) w = w0 at h0
   have h1 := h0.trans (frame_reportCheckInterval params.source w0)
   generalize reportCheckInterval params.source w0 = w1 at h1
-  have h2 : Frame w (nextGuid w1).2 := h1.trans ⟨rfl, rfl, rfl, rfl, rfl, rfl, rfl, rfl, rfl, rfl⟩
+  have h2 : Frame w (nextGuid w1).2 := h1.trans ⟨rfl, rfl, rfl, rfl, rfl, rfl, rfl, rfl, rfl, rfl, rfl⟩
   have h3 := h2.trans (frame_attemptLoop 3 1 (checkBuilder params apps (nextGuid w1).1) (nextGuid w1).2)
   generalize attemptLoop 3 1 (checkBuilder params apps (nextGuid w1).1) (nextGuid w1).2 = r at h3
   obtain ⟨res, attempts, w2⟩ := r
